@@ -3,22 +3,7 @@
 //! races in the code bitar drives (bytes, tokio, blake2, futures) on the paths the
 //! properties exercise. The oracles are the same as in the native checks.
 #![allow(dead_code)]
-#[path = "/verif/harness/src/exec.rs"]
-mod exec;
-#[path = "/verif/harness/src/inst.rs"]
-mod inst;
-#[path = "/verif/harness/src/util.rs"]
-mod util;
-mod refimpl {
-    #[path = "/verif/harness/src/refimpl/buztable.rs"]
-    pub mod buztable;
-    #[path = "/verif/harness/src/refimpl/chunker.rs"]
-    pub mod chunker;
-}
-mod checks {
-    #[path = "/verif/harness/src/checks/layout.rs"]
-    pub mod layout;
-}
+include!(concat!(env!("OUT_DIR"), "/mods.rs"));
 
 use checks::layout;
 use futures_util::StreamExt;
